@@ -20,6 +20,7 @@ type C08Case struct {
 	Op      Op      `json:"op"`      // operation under test (selectors resolved against the pre-state model)
 	Preload bool    `json:"preload"` // victim opens with preload
 	Sample  []int   `json:"sample"`  // indexes (mod #calls) of the boundaries/calls to exercise; empty = all
+	Then    string  `json:"then,omitempty"` // follow-up after the operation in the failed-call runs: "" | close | touchmeta | touchclose
 	All     bool    `json:"all"`
 }
 
@@ -427,7 +428,11 @@ func runC08Case(cc C08Case) (*Fail, c08Stats, error) {
 				return nil, stt, err
 			}
 			inj := fmt.Sprintf("%s:error=%s:when=%d", c.Name, en, c.Ordinal)
-			vr, err := runVictim(work, vop, pre.MaxChain, inj)
+			fvop := vop
+			if cc.Op.K != "close" && cc.Op.K != "open" {
+				fvop.Then = cc.Then
+			}
+			vr, err := runVictim(work, fvop, pre.MaxChain, inj)
 			if err != nil {
 				return nil, stt, err
 			}
@@ -447,7 +452,7 @@ func runC08Case(cc C08Case) (*Fail, c08Stats, error) {
 					w = preM
 				}
 				if d := ds.matches(w, w.Counter, w.Counter); d != "" {
-					return fail(sig0+"|"+c.Role+"|"+en+"|success-over-damaged-state", fmt.Sprintf("%s on call %d/%d %s(%s) of %+v: the operation reported success but the directory: %s", en, i+1, len(calls), c.Name, tailStr(c.Args, 120), vop, d), "C08"), stt, nil
+					return fail(sig0+"|"+c.Role+"|"+en+"|success-over-damaged-state", fmt.Sprintf("%s on call %d/%d %s(%s) of %+v: the operation reported success but the directory: %s", en, i+1, len(calls), c.Name, tailStr(c.Args, 120), fvop, d), "C08"), stt, nil
 				}
 			} else {
 				var d string
@@ -462,12 +467,23 @@ func runC08Case(cc C08Case) (*Fail, c08Stats, error) {
 						kind = "reports-failure-new-state-in-place"
 					}
 					sg := sig0 + "|" + c.Role + "|" + en + "|" + kind
+					if fvop.Then != "" && kind == "reports-failure-state-damaged" {
+						// distinguish damage done by the follow-up from damage done by the failed operation itself
+						if err := fresh(); err != nil {
+							return nil, stt, err
+						}
+						if vr2, err := runVictim(work, vop, pre.MaxChain, inj); err == nil && !vr2.Died && vr2.Result != "ok" &&
+							inspectDir(work, true, true).matches(preM, preM.Counter, preM.Counter) == "" {
+							sg = sig0 + "|" + c.Role + "|" + en + "|failed-operation-then-" + fvop.Then + "|state-damaged"
+							d = fmt.Sprintf("the failed operation alone leaves the old state intact, but after the follow-up %q (result %q) on the same replica: %s", fvop.Then, vr.Then, d)
+						}
+					}
 					if kind == "reports-failure-new-state-in-place" {
 						// one root cause whatever the operation, call and errno: nothing is rolled
 						// back once the commit point (the rename of the metadata file) has passed
 						sg = "C08|failure-after-commit-point|" + kind
 					}
-					return fail(sg, fmt.Sprintf("%s on call %d/%d %s(%s) of %+v: the operation reported %q but the old state is not intact: %s", en, i+1, len(calls), c.Name, tailStr(c.Args, 120), vop, vr.Result, d), "C08"), stt, nil
+					return fail(sg, fmt.Sprintf("%s on call %d/%d %s(%s) of %+v: the operation reported %q but the old state is not intact: %s", en, i+1, len(calls), c.Name, tailStr(c.Args, 120), fvop, vr.Result, d), "C08"), stt, nil
 				}
 			}
 		}
@@ -560,6 +576,9 @@ func c08Run(t *testing.T, test string, all bool, gen func(*rapid.T) C08Case) {
 		if cc.Dirty {
 			labels = append(labels, "dirty-pre-state")
 		}
+		if cc.Then != "" && stt.faultPoints > 0 {
+			labels = append(labels, "failed-call-then-"+cc.Then)
+		}
 		rec.Case(cc, stt.victimRuns > 1, labels...)
 		rec.AddExtra("victim_runs", stt.victimRuns)
 		rec.AddExtra("crash_points", stt.crashPoints)
@@ -609,6 +628,7 @@ func genC08Case(t *rapid.T, all bool) C08Case {
 	if !all {
 		cc.Sample = rapid.SliceOfN(rapid.IntRange(0, 200), 2, 4).Draw(t, "sample")
 	}
+	cc.Then = rapid.SampledFrom([]string{"", "", "close", "close", "touchmeta", "touchclose"}).Draw(t, "then")
 	return cc
 }
 
